@@ -221,8 +221,8 @@ func (p *probeState) onExit(id int, ok bool, dump string) {
 	p.flags[id] = ok
 	p.entered[id] = pf.hasEntry
 	ni := p.info[id]
-	if ni == nil {
-		return
+	if ni == nil || p.dupIDs {
+		return // a reused CREATE2 init code carries the ids of an earlier transaction: no per-frame attribution
 	}
 	now := protectedPart(dump)
 	p.checks++
@@ -249,10 +249,75 @@ func (p *probeState) onExit(id int, ok bool, dump string) {
 		}
 		return
 	}
+	// what precedes the snapshot: nothing for the four call kinds; for CREATE/CREATE2/AUTHCALL only the
+	// creator's / authority's nonce bump (as in Ethereum for CREATE; "frame entered" = snapshot point)
+	if pf.hasEntry {
+		if ni.a.kind == 'C' {
+			if pf.entry != pf.atPre {
+				p.report("pre-snapshot-effect:"+frameDesc(ni.a), fmt.Sprintf("frame %d (%s) changed the state before taking its snapshot: %s -> %s", id, frameDesc(ni.a), pf.atPre, pf.entry))
+			}
+		} else if !onlyNonceBump(pf.atPre, pf.entry) {
+			p.report("pre-snapshot-effect:"+frameDesc(ni.a), fmt.Sprintf("frame %d (%s) changed more than one nonce before taking its snapshot: %s -> %s", id, frameDesc(ni.a), pf.atPre, pf.entry))
+		}
+	}
 	if !ok && pf.hasEntry && now != pf.entry {
 		p.report("failed-frame:"+frameDesc(ni.a)+":"+ni.a.body.end,
 			fmt.Sprintf("frame %d (%s, ending %s) failed but left a trace: at entry %s at exit %s", id, frameDesc(ni.a), ni.a.body.end, pf.entry, now))
 	}
+}
+
+// onlyNonceBump: the two protected observations differ at most in the nonce of one account (which may
+// have been created by the bump)
+func onlyNonceBump(a, b string) bool {
+	if a == b {
+		return true
+	}
+	ia, ib := strings.Index(a, "] B["), strings.Index(b, "] B[")
+	if ia < 0 || ib < 0 || a[ia:] != b[ib:] {
+		return false
+	}
+	parse := func(s string) map[string]string {
+		m := map[string]string{}
+		for _, e := range strings.Split(s, ";") {
+			if e == "" {
+				continue
+			}
+			m[strings.SplitN(e, ":", 2)[0]] = e
+		}
+		return m
+	}
+	ma, mb := parse(a[2:ia]), parse(b[2:ib])
+	diff := 0
+	for name, eb := range mb {
+		ea, ok := ma[name]
+		if ok && ea == eb {
+			continue
+		}
+		diff++
+		fb := strings.Split(eb, ":")
+		if !ok {
+			// created by the bump: nonce 1, nothing else
+			if len(fb) != 5 || fb[1] != "1" || fb[2] != "-" || fb[3] != "0" || fb[4] != "" {
+				return false
+			}
+			continue
+		}
+		fa := strings.Split(ea, ":")
+		if len(fa) != 5 || len(fb) != 5 || fa[2] != fb[2] || fa[3] != fb[3] || fa[4] != fb[4] {
+			return false
+		}
+		na, e1 := strconv.Atoi(fa[1])
+		nb, e2 := strconv.Atoi(fb[1])
+		if e1 != nil || e2 != nil || nb != na+1 {
+			return false
+		}
+	}
+	for name := range ma {
+		if _, ok := mb[name]; !ok {
+			return false
+		}
+	}
+	return diff <= 1
 }
 
 // the transaction's outermost frame (evm.Call / evm.Create itself), checked before the block loop's own revert
@@ -271,6 +336,9 @@ func (p *probeState) rootExit(tx *txn, ok bool, dump string) {
 	kind := "tx-call"
 	if tx.create {
 		kind = "tx-create"
+	}
+	if pf.hasEntry && ((!tx.create && pf.entry != pf.atPre) || (tx.create && !onlyNonceBump(pf.atPre, pf.entry))) {
+		p.report("pre-snapshot-effect:"+kind, fmt.Sprintf("outermost frame (%s) changed the state before taking its snapshot: %s -> %s", kind, pf.atPre, pf.entry))
 	}
 	if now := protectedPart(dump); !ok && pf.hasEntry && now != pf.entry {
 		p.report("failed-frame:"+kind+":"+tx.body.end,
